@@ -231,11 +231,18 @@ def shorten(case):
 
 
 def describe(case):
+    try:
+        return _describe(case)
+    except Exception:  # a description is a convenience, never a reason to fail
+        return json.dumps({"id": case.get("id"), "fam": case.get("fam")})
+
+
+def _describe(case):
     d = {k: case.get(k) for k in ("id", "fam", "stratum", "profile", "modes", "macro", "fnc1", "eci", "size") if k in case}
     if "input" in case:
         d["input"] = bytes(case["input"][:40]).decode("latin1")
         d["len"] = len(case["input"])
-    if "list" in case:
+    if isinstance(case.get("list"), list):
         d["list"] = case["list"][:3] + (["..."] if len(case["list"]) > 3 else [])
     if case.get("events"):
         d["res"] = [json.dumps(e.get("res"))[:120] for e in case["events"][:2]]
